@@ -73,9 +73,9 @@ _set('C06', {
 _set('C07', {
     'category': 'proof',
     'design_ref': '8/C07',
-    'technique': 'Lean 4 theorems over code regenerated from the Go source by tools/gen + kernel-level correspondence (asm vs Go vs Lean model vs arithmetic)',
-    'note': 'Trusted: Lean 4.33 kernel; axioms propext/Classical.choice/Quot.sound only (audited per theorem every run); the Lean specification (lean/DecimalModel/Spec); the hand-written Lean model of the Go methods (lean/DecimalModel), whose agreement with /repo is what the correspondence run of the same check samples on every run (Go harness + compiled Lean driver + line protocol); tools/gen for the regenerated parts.',
-    'text': 'Theorems (Properties/C07.lean) over definitions REGENERATED from the Go source on every run: div10W_g (Granlund-Montgomery) mul10WW_g div10WW_g add10WWW_g sub10WWW_g equal their mathematical definition for all inputs within the precondition; all 18 rows of pow10DivTab64 divide every 64-bit word exactly; decDigits64, nlz10, trailingZeroDigits, pow10tab, pow5tab, constants. Assembly: not yet at theorem level (translator in progress) - decided by the run: each of the 12 kernels, assembly vs portable Go vs L0 Lean model vs definition, in-place and shifted-overlap destinations, plus identical public-API transcripts under the default, decimal_pure_go and math_big_pure_go builds.',
+    'technique': 'Lean 4 theorems over code REGENERATED from the Go source and from the amd64 assembly by tools/gen + kernel-level correspondence (CPU vs portable Go vs Lean-executed translated assembly vs L0 model vs arithmetic)',
+    'note': _PNOTE + ' Additionally trusted for C07: the hand-written meaning of ~30 amd64 mnemonics in tools/gen/asm.go and lean/DecimalModel/AsmSem.lean, validated on every run by executing the translated routines in Lean on the same inputs as the CPU.',
+    'text': "Theorems (Properties/C07.lean, 27) over definitions REGENERATED on every run. (a) Portable Go: div10W_g (Granlund-Montgomery) mul10WW_g div10WW_g add10WWW_g sub10WWW_g equal their mathematical definition for all inputs in the precondition; all 18 rows of pow10DivTab64 divide every 64-bit word exactly; decDigits64, nlz10, trailingZeroDigits, tables, constants. The vector loops around them are proved for all lengths in Properties/C06 (Proofs/Vec). (b) Assembly (dec_arith_amd64.s translated to one SSA let-chain per basic block): tier A - mul10WW, div10WW, div10W equal the definition and the portable kernel for all inputs; tier B - 74 block lemmas, every block of every routine (single-step bodies = the Go word step, 4x-unrolled bodies = four steps, table row fetch incl. the 16-bit load + RORW, copy loops); tier C - whole-routine theorems for every length n < 2^60 at memory level (termination, result words, carry, all other memory untouched, destination may equal the source) for add10VV, sub10VV, mulAdd10VWW, addMul10VVW, div10VWW. PARTIAL: whole-routine theorems for add10VW, sub10VW, shl10VU, shr10VU are not proved (their block lemmas are); those are tied by execution. (c)/(d)/(e) on the real thing every run: each kernel on the CPU vs portable Go vs the Lean-executed translated assembly vs the L0 model vs arithmetic, lengths 0..70/400, all shifts, in-place and shifted-overlap destinations as dec.shl/dec.shr/dnorm use them; identical public-API transcripts under the default, decimal_pure_go and math_big_pure_go builds.",
 })
 
 _set('C08', {
